@@ -1,7 +1,11 @@
 """Harness registry: property -> solver jobs.  See DESIGN.md for what each one encodes."""
+import os
 
 Q = ("quick", "thorough")
 T = ("thorough",)
+# harnesses that exist and compile but were not observed to finish within the session's limits (30-60 min, 30-45 GB):
+# run with VERIF_TIER_X=1 ./check <Cnn> --tier thorough; they are part of no registered command
+X = ("experimental",)
 
 
 def K(h, tiers=Q, **kw):
@@ -374,3 +378,26 @@ PROPS["C01"] = dict(
          K("c01::c01_typed_username", T, encodes="attribute::<Username>()", bounds="len 0..=32", mem=12, timeout=2400),
          K("c01::c01_typed_fingerprint", T, encodes="attribute::<Fingerprint>()", bounds="len 0..=32", mem=12, timeout=2400)],
 )
+
+
+# ---------------------------------------------------------------------------------------------
+# Tier bookkeeping from measurements: harnesses never observed to finish go to the experimental
+# tier (not part of the quick or thorough command); every remaining thorough-only job is capped
+# at 45 minutes so that a thorough command ends in bounded time.
+_EXPERIMENTAL = ("builder::", "blayout::c03_layout_l4_fp", "blayout::c03_layout_l2_mi", "blayout::c03_layout_l1_mi_sha_fp", "blayout::c03_layout_l5_mi_fp",
+                 "blayout::c03_layout_l6_sha_fp", "blayout::c03_layout_l7_mi_sha", "blayout::c11_rules_1", "blayout::c11_rules_2", "blayout::c11_rules_4", "blayout::c11_rules_5",
+                 "blayout::c11_rules_6", "c09::c09_builder_fingerprint_real_crc", "c09::c09_parser_fingerprint_real_crc", "c06cfg::c06_configure_tcp_3", "c06cfg::c06_configure_tcp_8",
+                 "c16::c16_verdict", "c16::c16_response_", "c16::c16_fixed_request_rec", "c04::c04_validate_record", "agenth::c05_send_step_sha1", "agenth::c07_send_step_sha1",
+                 "c01::c01_policing_any_class_24", "c02::c02_verdict_44", "c17::c17_prefix_44", "c10::c10_tail_40", "c01::c01_inspect_44")
+_KEEP = ("c04::c04_validate_record_44", "c16::c16_verdict_rec_28x")
+for _pid, _P in PROPS.items():
+    for _j in _P["jobs"]:
+        if "quick" in _j["tiers"]:
+            continue
+        if _j["h"] in _KEEP:
+            continue
+        if any(_j["h"].startswith(e) for e in _EXPERIMENTAL) and os.environ.get("VERIF_TIER_X") != "1":
+            _j["tiers"] = X
+        else:
+            _j["timeout"] = min(_j.get("timeout", 3600), 2700)
+            _j["mem"] = min(_j.get("mem", 8), 40)
